@@ -14,12 +14,17 @@ EXTENDS EvLedger
 MonInit == [L |-> LInit([confirm_to |-> 5000,
                          app |-> [time |-> FALSE, local |-> FALSE, trouble |-> FALSE, cfg |-> FALSE]],
                         "", <<>>),
-            resp |-> -2]      \* byte identity of the reply to the request processed last (-1 none, -2 unknown)
+            resp |-> -2,      \* byte identity of the reply to the request processed last (-1 none, -2 unknown)
+            respErr |-> FALSE]  \* that reply rejected the request (IIN2 error bit): it was not executed and
+                                \* may be answered afresh
 
 \* the reply to the request on this line: first solicited FIR fragment with its sequence number
 ReplyBid(e) ==
     LET rs == SelectSeq(e.tx, LAMBDA x : ~x.uns /\ x.fir /\ x.seq = e.seq)
     IN IF rs = <<>> THEN -1 ELSE rs[1].bid
+ReplyErr(e) ==
+    LET rs == SelectSeq(e.tx, LAMBDA x : ~x.uns /\ x.fir /\ x.seq = e.seq)
+    IN rs # <<>> /\ Iin2Err(rs[1])
 
 TxStep(acc, x, e, l) ==
     LET L  == acc.L
@@ -35,7 +40,7 @@ TxStep(acc, x, e, l) ==
     IN [acc EXCEPT !.L = ApplyTx(L2, x, e, l)]
 
 MonStep(m, e, l) ==
-    IF e.k = "reset" THEN [L |-> LInit(e.cfg, e.id, m.L.viol), resp |-> -2]
+    IF e.k = "reset" THEN [L |-> LInit(e.cfg, e.id, m.L.viol), resp |-> -2, respErr |-> FALSE]
     ELSE IF ~HasOutputs(e) THEN m
     ELSE LET L1  == ApplyStimulus(m.L, e, l)
              L2  == IF e.k # "rx" THEN ApplyRelease(L1, e, l) ELSE L1
@@ -46,15 +51,16 @@ MonStep(m, e, l) ==
                       THEN AddViol(L2, "C05", "re-executed", l,
                                    "retransmitted request was executed again")
                       ELSE L2
-             L4  == IF rep /\ m.resp # -2 /\ ReplyBid(e) # m.resp
+             L4  == IF rep /\ m.resp # -2 /\ ~m.respErr /\ ReplyBid(e) # m.resp
                       THEN AddViol(L3, "C05", "echo-differs", l,
                                    "reply to a retransmitted request differs from the reply sent before")
                       ELSE L3
              m1  == FoldLeft(LAMBDA acc, x : TxStep(acc, x, e, l), [m EXCEPT !.L = L4], e.tx)
          IN [m1 EXCEPT !.resp = IF e.k \in {"cut", "conn"} THEN -2
-                                ELSE IF isReq /\ ~rep /\ e.wf THEN ReplyBid(e)
+                                ELSE IF isReq /\ ~rep /\ e.wf /\ ProcessedNow(e) THEN ReplyBid(e)
                                 ELSE IF isReq /\ ~e.wf THEN -2
-                                ELSE @]
+                                ELSE @,
+                       !.respErr = IF isReq /\ ~rep /\ e.wf /\ ProcessedNow(e) THEN ReplyErr(e) ELSE @]
 
 Claimed == {"C05"}
 =============================================================================
